@@ -1,4 +1,5 @@
 import Proofs.Lemmas.HCMBasic
+import Proofs.Lemmas.HCMFed
 
 namespace PylifeVerif
 open HCM Rainflow
@@ -41,10 +42,6 @@ theorem noteStrain_neg (st : State) (p : HPoint) :
 
 theorem pick_lt (a b x y : Vec) :
     (if rep (vneg a) < rep (vneg b) then vneg x else vneg y) = vneg (if rep a > rep b then x else y) := by
-  rw [rep_vneg, rep_vneg]; split_ifs <;> first | rfl | omega
-
-theorem pick_gt (a b x y : Vec) :
-    (if rep (vneg a) > rep (vneg b) then vneg x else vneg y) = vneg (if rep a < rep b then x else y) := by
   rw [rep_vneg, rep_vneg]; split_ifs <;> first | rfl | omega
 
 theorem closedHyst_neg (st : State) (p0 p1 : HPoint) :
@@ -315,6 +312,8 @@ theorem twoPass_neg {law : Law} (ho : OddLaw law) (s : List Vec) (ht : NoTie law
   rw [negSt_init] at h1
   rw [h1, process_neg ho _ _ _ ht.2]
 
+/-- Version under the explicit no-tie hypothesis: here the complete final states are mirrored
+(`twoPass_neg`).  Superseded by `hcm_neg_mirror` below, which needs no hypothesis. -/
 theorem hcm_neg_mirror_partial (law : Law) (ho : OddLaw law) (s : List Vec) (ht : NoTie law s) :
     (twoPass law (s.map vneg)).recs = (twoPass law s).recs.map mirror ∧
     (twoPass law (s.map vneg)).strainValues = (twoPass law s).strainValues.map (- ·) := by
@@ -327,6 +326,103 @@ theorem oddLaw_linear : OddLaw lawLinear := by
   refine ⟨?_, ?_, ?_, ?_⟩ <;> intros <;> simp only [lawLinear] <;> omega
 
 example : NoTie lawLinear [[100], [-200], [0], [200], [-100], [100]] := by decide +kernel
+
+
+/-! ### the full theorem: a tie at the very last turning point is harmless -/
+
+theorem chainNe_iff (loads : List Vec) : ∀ prev : Int, ChainNe prev loads ↔ chainNe prev (loads.map rep) := by
+  induction loads with
+  | nil => intro prev; simp [ChainNe, chainNe]
+  | cons l ls ih => intro prev; simp only [ChainNe, chainNe, List.map_cons, ih]
+
+theorem updateLF_recs (st : State) (a b : Int) (p : HPoint) :
+    (updateLF st a b p).recs = st.recs ∧ (updateLF st a b p).strainValues = st.strainValues := by
+  unfold updateLF; split_ifs <;> exact ⟨rfl, rfl⟩
+
+/-- without the no-tie hypothesis the records and strain values are still mirrored -/
+theorem turnStep_neg_weak {law : Law} (ho : OddLaw law) (st : State) (prev : Int) (load : Vec) :
+    (turnStep law (negSt st, -prev) (vneg load)).1.recs =
+      (negSt (turnStep law (st, prev) load).1).recs ∧
+    (turnStep law (negSt st, -prev) (vneg load)).1.strainValues =
+      (negSt (turnStep law (st, prev) load).1).strainValues := by
+  unfold turnStep
+  have h1 : ({ negSt st with fed := (negSt st).fed ++ [((negSt st).run, vneg load)] } : State) =
+      negSt { st with fed := st.fed ++ [(st.run, load)] } := by simp [negSt]
+  have h2 : (negSt st).res.length = st.res.length := by simp [negSt]
+  simp only [h1, h2]
+  rw [processSample_neg ho]
+  generalize processSample law load (st.res.length / 2 + 2) { st with fed := st.fed ++ [(st.run, load)] } = r
+  obtain ⟨st2, p⟩ := r
+  simp only [rep_vneg, Int.natAbs_neg, show (negSt st2).loadMax = st2.loadMax from rfl]
+  simp only [(updateLF_recs _ _ _ _).1, (updateLF_recs _ _ _ _).2,
+    show ∀ x : State, (negSt x).recs = x.recs.map mirror from fun _ => rfl,
+    show ∀ x : State, (negSt x).strainValues = x.strainValues.map (- ·) from fun _ => rfl]
+  by_cases h : (rep load).natAbs > st2.loadMax <;> simp [h, negSt]
+
+theorem process_neg_weak {law : Law} (ho : OddLaw law) (st : State) (samples : List Vec) (flush : Bool)
+    (hc : ChainNe st.prevLoad (procLoads st samples flush).dropLast) :
+    (process law (negSt st) (samples.map vneg) flush).recs =
+      (process law st samples flush).recs.map mirror ∧
+    (process law (negSt st) (samples.map vneg) flush).strainValues =
+      (process law st samples flush).strainValues.map (- ·) := by
+  rw [process_eq, process_eq, procLoads_neg, procInit_neg,
+    show (negSt st).prevLoad = - st.prevLoad from rfl]
+  by_cases hl : procLoads st samples flush = []
+  · rw [hl]; exact ⟨rfl, rfl⟩
+  · rw [← List.dropLast_append_getLast hl] at hc ⊢
+    generalize (procLoads st samples flush).dropLast = init at hc ⊢
+    generalize (procLoads st samples flush).getLast hl = l
+    rw [List.dropLast_concat] at hc
+    simp only [List.map_append, List.map_cons, List.map_nil, List.foldl_append, List.foldl_cons,
+      List.foldl_nil]
+    rw [foldl_turnStep_neg ho init _ _ hc]
+    exact turnStep_neg_weak ho _ _ l
+
+/-- **C05, negation mirror** (full statement).  Ties (`previousLoad = load` in `updateLF`, where both
+runs take the same branch) occur only at the very last turning point of pass 2 (constant sequences);
+there the running strain extremes may differ from the mirror image but nothing is recorded any more. -/
+theorem hcm_neg_mirror (law : Law) (ho : OddLaw law) (s : List Vec) :
+    (twoPass law (s.map vneg)).recs = (twoPass law s).recs.map mirror ∧
+    (twoPass law (s.map vneg)).strainValues = (twoPass law s).strainValues.map (- ·) := by
+  have chains : ChainNe 0 (procLoads {} (adjustFirstRun (dropTrailingNonReversals s)).1
+        (adjustFirstRun (dropTrailingNonReversals s)).2) ∧
+      ChainNe (process law {} (adjustFirstRun (dropTrailingNonReversals s)).1
+          (adjustFirstRun (dropTrailingNonReversals s)).2).prevLoad
+        (procLoads (process law {} (adjustFirstRun (dropTrailingNonReversals s)).1
+          (adjustFirstRun (dropTrailingNonReversals s)).2) (dropTrailingNonReversals s) true).dropLast := by
+    by_cases h2 : ∃ a ∈ s.map rep, ∃ b ∈ s.map rep, a ≠ b
+    · have hf := flush_of_twoDistinct s h2
+      have := chains_of_flush law (dropTrailingNonReversals s) hf
+      rw [hf]
+      rw [chainNe_iff, chainNe_iff, List.map_dropLast]
+      exact this
+    · have hc : ∀ x ∈ s.map rep, x = (s.map rep).headD 0 := by
+        intro x hx
+        cases hs : s.map rep with
+        | nil => rw [hs] at hx; simp at hx
+        | cons y ys =>
+          rw [hs] at hx
+          by_contra hne
+          exact h2 ⟨x, by rw [hs]; exact hx, y, by rw [hs]; exact List.mem_cons_self, hne⟩
+      obtain ⟨l1, l2⟩ := loads_of_const law s _ hc
+      rw [l1]
+      refine ⟨trivial, ?_⟩
+      have : (procLoads (process law {} (adjustFirstRun (dropTrailingNonReversals s)).1
+          (adjustFirstRun (dropTrailingNonReversals s)).2) (dropTrailingNonReversals s) true).dropLast = [] := by
+        apply List.eq_nil_of_length_eq_zero
+        rw [List.length_dropLast]; omega
+      rw [this]; trivial
+  rw [twoPass_eq, twoPass_eq, dropTrailing_neg, adjustFirstRun_neg]
+  have h1 := process_neg ho {} _ _ chains.1
+  rw [negSt_init] at h1
+  simp only [h1]
+  exact process_neg_weak ho _ _ true chains.2
+
+/-- the theorem applies to the linear stub law (and to constant and all-zero sequences, which the
+partial version excludes) -/
+example (s : List Vec) :
+    (twoPass lawLinear (s.map vneg)).recs = (twoPass lawLinear s).recs.map mirror :=
+  (hcm_neg_mirror lawLinear oddLaw_linear s).1
 
 end C05
 end PylifeVerif
